@@ -92,6 +92,7 @@ def check(run: Run) -> None:
     run.rule("R3", "the constants satisfy the identities R=kB*NA, F=e*NA, hbar=h/2pi, eps0*mu0*c^2=1, Z0=mu0*c, sigma=2pi^5kB^4/(15h^3c^2), b=hc/(4.965114kB)")
     run.rule("R4", "every reference constant is still defined and every name in __all__ is a defined constant")
     run.rule("R5", "a constant's stored value cannot change after import: the unit system's per-quantity tables are written only by Quantity.__init__, for `self`")
+    run.rule("R6", "no submodule of the constants package carries the name of a constant: importing it would rebind the exported name to the module object")
     run.rule("I3", "quantity names (the keys of those tables) are unique process-wide: one counter table, advanced only by next_id")
     w = World(run.src)
     mod = run.src.need(MODULE)
@@ -166,6 +167,17 @@ def check(run: Run) -> None:
                     f"__all__ exports names that are not constants defined in the module: {sorted(exported - public)}")
     run.notes["public_but_not_in___all__"] = sorted(public - exported)  # informational: the property speaks of exported constants only
     run.notes["constants"] = len(consts)
+    # R6: `import pkg.sub` binds the module object to the attribute `sub` of the package, over whatever the package's own code bound to that name
+    subs = sorted(m.name for m in run.src.mods.values() if m.name.startswith(MODULE + "."))
+    run.ob("R6", f"submodules of {MODULE}: {len(subs)}")
+    for sub in subs:
+        first = sub[len(MODULE) + 1:].split(".")[0]
+        run.ob("R6", sub)
+        if first in env.names and first not in ("__init__", ):
+            sm = run.src.mods[sub]
+            run.violate("R6", f"{MODULE}:{first}:shadowed-by-submodule", sm, sm.tree,
+                        f"the module {sub} has the name of `{MODULE}.{first}`: the first import of it rebinds that exported name to the module object, "
+                        f"and the constant's dimension and value are gone for every later reader")
     # R5: who may write the value / dimension tables of the unit system
     SETTERS = {"set_quantity_scale_factor", "set_quantity_dimension", "set_global_relative_scale_factor", "set_global_dimension"}
     TABLES = {"_quantity_scale_factors", "_quantity_dimension_map", "_quantity_scale_factors_global", "_quantity_dimensional_equivalence_map_global"}
